@@ -73,7 +73,7 @@ let p_dq () =
     | "c" -> DChr (n_of_int (p_int ()))
     | "e" -> DEsc (n_of_int (p_int ()))
     | "h" -> let k = n_of_int (p_int ()) in let ds = p_str () in DHex (k, ds)
-    | "l" -> let k = p_nat () in let ind = p_str () in DBrk (k, ind)
+    | "l" -> let k = strs_of_field (next ()) in let ind = p_str () in DBrk (k, ind)
     | x -> failwith ("ast: dq item " ^ x))
 
 let p_flow () =
@@ -87,13 +87,13 @@ let p_flow () =
   | "fs" ->
       let l0 = p_str () in
       let more = p_list (fun () ->
-        let tws = p_str () in let k = p_nat () in let ind = p_str () in let t = p_str () in
+        let tws = p_str () in let k = strs_of_field (next ()) in let ind = p_str () in let t = p_str () in
         (((tws, k), ind), t)) in
       FSingle (l0, more)
   | "fd" ->
       let l0 = p_dq () in
       let more = p_list (fun () ->
-        let tws = p_str () in let k = p_nat () in let ind = p_str () in let t = p_dq () in
+        let tws = p_str () in let k = strs_of_field (next ()) in let ind = p_str () in let t = p_dq () in
         (((tws, k), ind), t)) in
       FDouble (l0, more)
   | x -> failwith ("ast: flow " ^ x)
